@@ -360,3 +360,18 @@ Fixpoint run_from (st : state) (bs : list batch) : list (bool * list series) :=
       (err, gather st') :: run_from st' r
   end.
 Definition run (bs : list batch) : list (bool * list series) := run_from init_state bs.
+
+(* ---- batches arriving at the same time ----
+   SendBatch of concurrent executions is modelled as atomic steps taken in some order
+   il of the round's batches (linearisation).  What is observed of a round: for every
+   batch whether SendBatch failed (that does not depend on the state: validation comes
+   first and a validated batch cannot fail, see C16_failure_is_state_independent), and
+   Gather() once all of them have returned. *)
+Definition run_final (bs : list batch) : state :=
+  fold_left (fun st b => fst (hook_batch st (fst b) (snd b))) bs init_state.
+Definition batch_fails (b : batch) : bool := snd (hook_batch init_state (fst b) (snd b)).
+Definition conc_run (history round il : list batch) : list bool * list series :=
+  (map batch_fails round, gather (run_final (history ++ il))).
+(* the batches that follow the round, one after the other again *)
+Definition after_run (history il after : list batch) : list (bool * list series) :=
+  run_from (run_final (history ++ il)) after.
